@@ -31,6 +31,7 @@
        AdjFwd / AdjBwd  consecutive same-direction steps: view'.start = view.end (mirrored)
        AutoProgressFwd/Bwd  an automatic step returns data while samples remain in the bounds
        SeekFirstNoSkip / SeekLastNoSkip  no stored sample between the bound and the position
+       SeekFinds        SeekFirst / SeekLast succeed when the bounds hold a stored sample
        TraversalOnce    (state) since SeekFirst only forward steps => the samples returned so far
                         are exactly Read(bounds.start, view.end): each once, in order (mirrored)
      pinned beyond the property (drift level; compared, never a verdict):
